@@ -201,6 +201,16 @@ def c14(run, replay=None):
     o = run_transfer(root, 1, ["/nonexistent/prog", "x"], None, False, 0, [])
     if o["rc"] in (0, "timeout") or o["log"] != ["pre0"]:
         run.violation("transfer_pid with a missing executable: rc=%r log=%r" % (o["rc"], o["log"]), dict(observed=o))
+    # K32: the hand-over fails AFTER the main process has dropped its credentials (become + transfer_pid + a program
+    # that cannot be executed) and the failure is ignored: the rest of the script runs as the other user
+    if nb and os.geteuid() == 0:
+        sc = ("#!/usr/bin/env rash\n- command:\n    argv: [/nonexistent/prog]\n    transfer_pid: true\n  become: true\n  become_user: nobody\n  ignore_errors: true\n"
+              "- command: id -u\n")
+        o = E.run_impls([dict(files={"main.rh": dict(raw=sc)}, world_writable=True)], timeout=15)[0]
+        if o["stdout"].strip().endswith(str(nb[0])):
+            run.known("K32-credentials-lost-after-failed-handover", "")
+        elif not o["stdout"].strip().endswith(str(os.getuid())):
+            run.violation("become + transfer_pid + missing program + ignore_errors: unexpected behaviour %r" % o, dict(script=sc, observed=o))
     run.coverage.update(evaluations=len(cases) + len(cmds) + 1, distinct_nontrivial=len(nontrivial),
                         rule="argv contents (empty list, blanks, quotes, shell metacharacters, empty strings, UTF-8, dash words) x chdir x become (nobody and a user whose gid differs from its uid, each by name and by number) x position of the task x exit statuses "
                              "(all 0-255 in thorough); each run: PID of the helper == PID of the rash process, argv, cwd, the whole environment (-e pairs win over inherited values, nothing else differs), uid/gid, wait status, marker log; cmd form vs the model's split_whitespace; missing executable; "
@@ -283,6 +293,12 @@ def c15(run, replay=None):
         if o["rc"] != 0 or o["stdout"] != want:
             run.violation("become_user %s: expected uid/gid %d/%d inside and %d/%d afterwards, got stdout %r (rc %r)" % (bu, uid, gid, os.getuid(), os.getgid(), o["stdout"], o["rc"]),
                           dict(script=sc, observed=o))
+    # a large variable store crossing the process boundary (K31: about 1 MB used to deadlock): under a deadline
+    big = ("#!/usr/bin/env rash\n- set_vars:\n    big: \"{{ 'x' * 2000000 }}\"\n- command: id -u\n  become: true\n  become_user: nobody\n  register: r\n"
+           "- debug:\n    msg: \"<<big>> {{ big | length }} {{ r.output }}\"\n")
+    o = E.run_impls([dict(files={"main.rh": dict(raw=big)}, world_writable=True)], timeout=30)[0]
+    if o["rc"] != 0 or ("<<big>> 2000000 %d" % nb[0]) not in o["stdout"]:
+        run.violation("become with a 2 MB variable in the store: rc=%r (timeout = hang), stdout tail %r" % (o["rc"], o["stdout"][-120:]), dict(script=big, observed=dict(rc=o["rc"], stderr=o["stderr"])))
     # command line x task keywords: --become applies to every task, a task's own become_user wins over -u
     daemon = None
     try:
